@@ -3,14 +3,17 @@ package main
 import (
 	"crypto/md5"
 	"fmt"
+	"strconv"
 	"strings"
 
 	casbin "github.com/casbin/casbin/v2"
 	"github.com/casbin/casbin/v2/model"
+	"github.com/casbin/casbin/v2/persist"
 )
 
 // C19: replicated self-operations are exact, idempotent and deterministic.
-// Three real casbin.DistributedEnforcer replicas (persist always / never / by a seeded coin), each
+// Four real casbin.DistributedEnforcer replicas (persist always / never / by a seeded coin, and a
+// fourth one wired to its own recording dispatcher), each
 // over its own recording set-semantics adapter (recAdapter of mach.go), apply the same log of
 // *Self calls.  After every observed call, on every replica: the returned affected list / bool /
 // error, the adapter calls made by this call, the adapter content, the listed rules of every
@@ -55,11 +58,42 @@ func (o c19Op) Sx() string {
 type c19Replica struct {
 	D    *casbin.DistributedEnforcer
 	A    *recAdapter
-	M    *mach // view of the embedded enforcer for the shared observers
-	log0 int   // adapter log length after construction (the initial LoadPolicy)
+	M    *mach      // view of the embedded enforcer for the shared observers
+	log0 int        // adapter log length after construction (the initial LoadPolicy)
+	Disp *c19Disp   // the replica's own dispatcher (nil: SetDispatcher was never called)
+	Aff  [][]string // the affected rules returned by the last Add / Remove / RemoveFiltered call
 }
 
-func c19NewReplica(conf machConf) *c19Replica {
+// c19Disp is a dispatcher that only records what it is asked to replicate.  The *Self calls are
+// what a dispatcher invokes on the receiving replicas: none of them may ever reach it.
+type c19Disp struct{ Calls []string }
+
+var _ persist.Dispatcher = (*c19Disp)(nil)
+
+func (s *c19Disp) rec(name string) error { s.Calls = append(s.Calls, name); return nil }
+func (s *c19Disp) AddPolicies(sec string, ptype string, rules [][]string) error {
+	return s.rec("AddPolicies")
+}
+func (s *c19Disp) RemovePolicies(sec string, ptype string, rules [][]string) error {
+	return s.rec("RemovePolicies")
+}
+func (s *c19Disp) RemoveFilteredPolicy(sec string, ptype string, fieldIndex int, fieldValues ...string) error {
+	return s.rec("RemoveFilteredPolicy")
+}
+func (s *c19Disp) ClearPolicy() error { return s.rec("ClearPolicy") }
+func (s *c19Disp) UpdatePolicy(sec string, ptype string, oldRule, newRule []string) error {
+	return s.rec("UpdatePolicy")
+}
+func (s *c19Disp) UpdatePolicies(sec string, ptype string, oldrules, newRules [][]string) error {
+	return s.rec("UpdatePolicies")
+}
+func (s *c19Disp) UpdateFilteredPolicies(sec string, ptype string, oldRules [][]string, newRules [][]string) error {
+	return s.rec("UpdateFilteredPolicies")
+}
+
+// c19NewReplica builds a replica; wired: it gets its own recording dispatcher through
+// SetDispatcher (auto-notify stays at its default, on), as in a real deployment.
+func c19NewReplica(conf machConf, wired bool) *c19Replica {
 	m, err := model.NewModelFromString(conf.Text)
 	if err != nil {
 		panic(err)
@@ -69,7 +103,40 @@ func c19NewReplica(conf machConf) *c19Replica {
 	if err != nil {
 		panic(err)
 	}
-	return &c19Replica{D: d, A: a, M: &mach{Conf: conf, E: d.Enforcer, A: a}, log0: len(a.Log)}
+	r := &c19Replica{D: d, A: a, M: &mach{Conf: conf, E: d.Enforcer, A: a}, log0: len(a.Log)}
+	if wired {
+		r.Disp = &c19Disp{}
+		d.SetDispatcher(r.Disp)
+	}
+	return r
+}
+
+func (r *c19Replica) dispKey() string {
+	if r.Disp == nil {
+		return "none"
+	}
+	return "[" + strings.Join(r.Disp.Calls, " ") + "]"
+}
+
+// hasKey: what the index (PolicyMap) of every type knows about the rules of the universe
+func (u c19Uni) hasKey(r *c19Replica) string {
+	var b strings.Builder
+	for _, pt := range u.pts {
+		sec := "p"
+		if r.M.Conf.Def(pt).IsG {
+			sec = "g"
+		}
+		for _, rule := range u.rules[pt] {
+			ok, err := r.D.GetModel().HasPolicy(sec, pt, rule)
+			if err != nil {
+				b.WriteString("E")
+			} else {
+				b.WriteString(B(ok))
+			}
+		}
+		b.WriteString("|")
+	}
+	return b.String()
 }
 
 func c19Rules(aff [][]string, err error) string {
@@ -93,11 +160,17 @@ func (r *c19Replica) apply(o c19Op, persist bool) (res string) {
 	}
 	switch o.Kind {
 	case "add":
-		return c19Rules(d.AddPoliciesSelf(sp, sec, o.Pt, o.R1))
+		aff, err := d.AddPoliciesSelf(sp, sec, o.Pt, o.R1)
+		r.Aff = aff
+		return c19Rules(aff, err)
 	case "remove":
-		return c19Rules(d.RemovePoliciesSelf(sp, sec, o.Pt, o.R1))
+		aff, err := d.RemovePoliciesSelf(sp, sec, o.Pt, o.R1)
+		r.Aff = aff
+		return c19Rules(aff, err)
 	case "removefiltered":
-		return c19Rules(d.RemoveFilteredPolicySelf(sp, sec, o.Pt, o.Fi, o.Fvs...))
+		aff, err := d.RemoveFilteredPolicySelf(sp, sec, o.Pt, o.Fi, o.Fvs...)
+		r.Aff = aff
+		return c19Rules(aff, err)
 	case "clear":
 		return errStr(d.ClearPolicySelf(sp))
 	case "update":
@@ -176,14 +249,80 @@ func c19Domain() c19Uni {
 	return u
 }
 
+// c19Priority: a model with an explicit priority column (p = priority, sub, obj, act, eft;
+// e = priority(p.eft) || deny).  model.AddPolicy inserts a rule with a numeric priority behind
+// the last rule whose priority is not greater (PolicyMap of every rule it passes is bumped);
+// the seven p rules force insertion in front (P1, P4, P5 before P0), ties (P0/P2, P1/P5, P3/P6:
+// the later rule goes behind the earlier one) and a rule that sorts last (P3, P6).
+func c19Priority() c19Uni {
+	u := c19Uni{conf: machPriority, pts: []string{"g", "p"}}
+	u.rules = map[string][][]string{
+		"g": {{"alice", "admin"}, {"bob", "admin"}, {"admin", "root"}, {"root", "alice"}},
+		"p": {{"10", "alice", "data1", "read", "allow"}, {"5", "admin", "data1", "read", "deny"},
+			{"10", "bob", "data2", "write", "allow"}, {"20", "root", "data2", "write", "deny"},
+			{"1", "alice", "data2", "write", "deny"}, {"5", "bob", "data1", "read", "allow"},
+			{"20", "admin", "data2", "write", "allow"}},
+	}
+	u.linkObs = [][]string{{"g", "alice", "bob", "admin", "root"}}
+	for _, s := range []string{"alice", "bob", "admin", "root"} {
+		for _, o := range []string{"data1", "data2"} {
+			for _, a := range []string{"read", "write"} {
+				u.reqs = append(u.reqs, []string{s, o, a})
+			}
+		}
+	}
+	return u
+}
+
+// prioCol: the priority column of a policy type, -1 when it has none
+func (u c19Uni) prioCol(pt string) int {
+	if d := u.conf.Def(pt); d != nil {
+		return d.Prio
+	}
+	return -1
+}
+
+// c19SortedNum: every rule has a numeric priority in column col and the priorities do not decrease
+func c19SortedNum(rules [][]string, col int) bool {
+	last := 0
+	for i, r := range rules {
+		if col >= len(r) {
+			return false
+		}
+		v, err := strconv.Atoi(r[col])
+		if err != nil || (i > 0 && v < last) {
+			return false
+		}
+		last = v
+	}
+	return true
+}
+
+func c19AllNum(rules [][]string, col int) bool {
+	for _, r := range rules {
+		if col >= len(r) {
+			return false
+		}
+		if _, err := strconv.Atoi(r[col]); err != nil {
+			return false
+		}
+	}
+	return true
+}
+
 func (u c19Uni) header() string {
 	var lo []string
 	for _, l := range u.linkObs {
 		lo = append(lo, L(Q(l[0]), QL(l[1:]), QL(u.domains)))
 	}
-	return fmt.Sprintf("(cfg %s) (kind %s) (links %s) (reqs %s)",
+	var un []string
+	for _, pt := range u.pts {
+		un = append(un, L(Q(pt), QLL(u.rules[pt])))
+	}
+	return fmt.Sprintf("(cfg %s) (kind %s) (links %s) (reqs %s) (uni %s)",
 		strings.TrimSuffix(strings.TrimPrefix(u.conf.Sx(), "("), ")"), u.conf.Name,
-		strings.Join(lo, " "), strings.TrimSuffix(strings.TrimPrefix(QLL(u.reqs), "("), ")"))
+		strings.Join(lo, " "), strings.TrimSuffix(strings.TrimPrefix(QLL(u.reqs), "("), ")"),
+		strings.Join(un, " "))
 }
 
 func (u c19Uni) decisions(r *c19Replica) string {
@@ -239,7 +378,8 @@ func (u c19Uni) alphabet() []c19Op {
 		c19Op{Kind: "updatemany", Pt: "p", R1: rs("p", 1, 2), R2: rs("p", 3, 0)},
 		c19Op{Kind: "clear"},
 	)
-	if u.conf.Name == "rbac" {
+	switch u.conf.Name {
+	case "rbac":
 		al = append(al,
 			c19Op{Kind: "add", Pt: "g2", R1: rs("g2", 0, 1)},
 			c19Op{Kind: "remove", Pt: "g2", R1: rs("g2", 0)},
@@ -248,7 +388,23 @@ func (u c19Uni) alphabet() []c19Op {
 			c19Op{Kind: "removefiltered", Pt: "p2", Fi: 0, Fvs: []string{"alice"}},
 			c19Op{Kind: "removefiltered", Pt: "p2", Fi: 0, Fvs: []string{}}, // no filter value: every rule matches
 		)
-	} else {
+	case "priority":
+		// the generic part already inserts in front (add p(0,1): P1 before P0; add p(1,2,0): P1, then
+		// P2 behind it, then P0 behind its tie P2) and updates across priorities (P0 -> P3)
+		al = append(al,
+			c19Op{Kind: "add", Pt: "p", R1: rs("p", 4)},       // in front of everything
+			c19Op{Kind: "add", Pt: "p", R1: rs("p", 3, 5)},    // last, then into the middle (tie with P1)
+			c19Op{Kind: "add", Pt: "p", R1: rs("p", 6, 2, 4)}, // tie with P3, tie with P0, front
+			c19Op{Kind: "remove", Pt: "p", R1: rs("p", 3)},    // the rule that sorts last
+			c19Op{Kind: "remove", Pt: "p", R1: rs("p", 6, 0)},
+			c19Op{Kind: "remove", Pt: "p", R1: rs("p", 1, 4)},
+			c19Op{Kind: "update", Pt: "p", R1: rs("p", 3), R2: rs("p", 6)}, // same priority, the last rule
+			c19Op{Kind: "update", Pt: "p", R1: rs("p", 0), R2: rs("p", 2)}, // same priority
+			c19Op{Kind: "updatemany", Pt: "p", R1: rs("p", 3, 1), R2: rs("p", 6, 5)},
+			c19Op{Kind: "removefiltered", Pt: "p", Fi: 0, Fvs: []string{"10"}},
+			c19Op{Kind: "removefiltered", Pt: "p", Fi: 4, Fvs: []string{"deny"}},
+		)
+	default:
 		al = append(al,
 			c19Op{Kind: "removefiltered", Pt: "g", Fi: 2, Fvs: []string{"d1"}},
 			c19Op{Kind: "removefiltered", Pt: "g", Fi: 0, Fvs: []string{"", "", "d2"}},
@@ -276,7 +432,7 @@ func c19Witnesses(u c19Uni) [][]c19Op {
 		}
 		return out
 	}
-	return [][]c19Op{
+	ws := [][]c19Op{
 		// F02 (repaired by bd8551d): a grouping rule added, ClearPolicySelf: the link must be gone on
 		// every replica ...
 		{{Kind: "add", Pt: "g", R1: g(0)}, {Kind: "clear"}, {Kind: "add", Pt: "g", R1: g(2)}},
@@ -294,6 +450,29 @@ func c19Witnesses(u c19Uni) [][]c19Op {
 		{{Kind: "add", Pt: "p", R1: p(0)}, {Kind: "updatemany", Pt: "p", R1: p(0, 1), R2: p(2, 3)}, {Kind: "updatemany", Pt: "p", R1: p(0, 1), R2: p(2, 3)},
 			{Kind: "add", Pt: "p", R1: p(1)}, {Kind: "updatemany", Pt: "p", R1: p(0, 1), R2: p(2, 3)}, {Kind: "updatemany", Pt: "p", R1: p(0, 1), R2: p(2, 3)}},
 	}
+	if u.conf.Name == "priority" {
+		ws = append(ws,
+			// a rule inserted in front of the listed ones, then the rule that sorts LAST is removed,
+			// removed again (replay), re-added, replaced by a rule of the same priority (twice) ...
+			[]c19Op{{Kind: "add", Pt: "p", R1: p(0, 3)}, {Kind: "add", Pt: "p", R1: p(4)},
+				{Kind: "remove", Pt: "p", R1: p(3)}, {Kind: "remove", Pt: "p", R1: p(3)},
+				{Kind: "add", Pt: "p", R1: p(3)}, {Kind: "add", Pt: "p", R1: p(1)},
+				{Kind: "update", Pt: "p", R1: p(3), R2: p(6)}, {Kind: "update", Pt: "p", R1: p(3), R2: p(6)},
+				{Kind: "remove", Pt: "p", R1: p(6)}, {Kind: "remove", Pt: "p", R1: p(0, 4, 1)}},
+			// ... only ONE rule is shifted by the insertion, then a batch update names the last rule
+			[]c19Op{{Kind: "add", Pt: "p", R1: p(3)}, {Kind: "add", Pt: "p", R1: p(1)},
+				{Kind: "updatemany", Pt: "p", R1: p(3, 1), R2: p(6, 5)}, {Kind: "updatemany", Pt: "p", R1: p(3, 1), R2: p(6, 5)},
+				{Kind: "remove", Pt: "p", R1: p(6)}, {Kind: "remove", Pt: "p", R1: p(5)}},
+			// ties: a rule goes behind the listed rules of the same priority, in front of the greater ones
+			[]c19Op{{Kind: "add", Pt: "p", R1: p(3, 0, 1)}, {Kind: "add", Pt: "p", R1: p(2, 5, 6)}, {Kind: "add", Pt: "p", R1: p(4, 4, 2)},
+				{Kind: "remove", Pt: "p", R1: p(6, 3)}, {Kind: "remove", Pt: "p", R1: p(6, 3)},
+				{Kind: "removefiltered", Pt: "p", Fi: 0, Fvs: []string{"10"}}, {Kind: "clear"}, {Kind: "add", Pt: "p", R1: p(3, 4)},
+				{Kind: "remove", Pt: "p", R1: p(3)}},
+			// the priority effect: the first matching rule with a decided effect wins; a link changes who matches
+			[]c19Op{{Kind: "add", Pt: "g", R1: g(0)}, {Kind: "add", Pt: "p", R1: p(0, 5)}, {Kind: "add", Pt: "p", R1: p(1)},
+				{Kind: "remove", Pt: "g", R1: g(0)}, {Kind: "remove", Pt: "p", R1: p(0)}, {Kind: "add", Pt: "g", R1: g(0, 1)}})
+	}
+	return ws
 }
 
 // c19OogOps: the calls of part (1b); each is outside the F08 guard in some reachable state.
@@ -304,6 +483,13 @@ func c19OogOps(u c19Uni) []c19Op {
 		pts = append(pts, "g2")
 	}
 	for _, pt := range pts {
+		if u.prioCol(pt) >= 0 {
+			// F08 x priority column, kept out of the stream: once an update onto a listed rule has
+			// listed a rule twice, the priority bubble of a later AddPoliciesSelf bumps the rule's single
+			// PolicyMap entry once per listed copy it passes, past the end of the list, and the next
+			// RemovePoliciesSelf naming it panics (slice bounds out of range) where Store.remove is total
+			continue
+		}
 		R := u.rules[pt]
 		rs := func(is ...int) [][]string {
 			var o [][]string
@@ -385,17 +571,82 @@ func c19First(rules [][]string, keep func(r []string) bool) [][]string {
 	return out
 }
 
+// c19Snap: what is observed of a replica's memory
+type c19Snap struct {
+	full   bool // links and dec were taken
+	listed string
+	has    string
+	links  []string
+	dec    string
+}
+
+func (u c19Uni) take(r *c19Replica, full bool) c19Snap {
+	s := c19Snap{full: full, listed: r.M.listedKey(), has: u.hasKey(r)}
+	if full {
+		s.links, s.dec = u.links(r), u.decisions(r)
+	}
+	return s
+}
+
+// c19Wire: which replicas of a log get their own recording dispatcher.  Logs with several
+// replicas: persist always / never / seeded coin without dispatcher, and a fourth one (seeded
+// coin) wired with SetDispatcher; single-replica logs: the replica is wired in every second log.
+func c19Wire(nrep int, single bool) []bool {
+	w := make([]bool, nrep)
+	if nrep > 1 {
+		w[nrep-1] = true
+	} else {
+		w[0] = single
+	}
+	return w
+}
+
+// c19Bits: persist answers of the four replicas of a log: always, never, coin, coin (wired)
+func c19Bits(c *Ctx) []bool {
+	return []bool{true, false, c.Rng.Intn(2) == 0, c.Rng.Intn(2) == 0}
+}
+
+// c19Matches: the filter of RemoveFilteredPolicy ("" matches every value); the harness keeps
+// fi + len(fvs) within the rule length
+func c19Matches(r []string, fi int, fvs []string) bool {
+	for i, v := range fvs {
+		if fi+i >= len(r) || (v != "" && r[fi+i] != v) {
+			return false
+		}
+	}
+	return true
+}
+
+func c19ReplaceFirst(l [][]string, o, n []string) [][]string {
+	out := append([][]string(nil), l...)
+	for i, r := range out {
+		if sameRule(r, o) {
+			out[i] = n
+			break
+		}
+	}
+	return out
+}
+
 // c19Run applies the log to len(steps[0].Bits) fresh replicas, observing from step `from` on.
+// wired[i]: replica i has its own recording dispatcher; no *Self call may reach it, and the replica
+// must behave like the others.
 // agree: the replicas must agree with each other (no injected failure, no UpdateFiltered).
 // digest: one line per case carrying the MD5 of all its observables (thorough tier).
-func c19Run(c *Ctx, id string, u c19Uni, steps []c19Step, from int, agree bool, digest bool) (nontrivial bool) {
+func c19Run(c *Ctx, id string, u c19Uni, steps []c19Step, from int, agree bool, digest bool, wired []bool) (nontrivial bool) {
 	nrep := len(steps[0].Bits)
-	c.Case(id, fmt.Sprintf("%s (from %d) (digest %s) (ops %s)", u.header(), from, B(digest), c19LogSx(steps)))
+	var wb []string
+	for _, w := range wired {
+		wb = append(wb, B(w))
+	}
+	c.Case(id, fmt.Sprintf("%s (wired %s) (from %d) (digest %s) (ops %s)", u.header(), strings.Join(wb, " "), from, B(digest), c19LogSx(steps)))
 	reps := make([]*c19Replica, nrep)
 	for i := range reps {
-		reps[i] = c19NewReplica(u.conf)
+		reps[i] = c19NewReplica(u.conf, wired[i])
 	}
-	replay := func() string { return fmt.Sprintf("model=%s ops=%s", u.conf.Name, c19LogSx(steps)) }
+	replay := func() string {
+		return fmt.Sprintf("model=%s wired=%s ops=%s", u.conf.Name, strings.Join(wb, ""), c19LogSx(steps))
+	}
 	sum := md5.New()
 	if digest {
 		defer func() { c.Obs(id, "all", fmt.Sprintf("%x", sum.Sum(nil))) }()
@@ -403,9 +654,20 @@ func c19Run(c *Ctx, id string, u c19Uni, steps []c19Step, from int, agree bool, 
 	// F08 (known): outside the guard the listing may hold a rule twice or lose its index entry;
 	// "affected is exact" and "a repeated call reports nothing" are known to fail from then on.
 	// The model follows the code there, so the log stays in the correspondence stream (and the
-	// replica-agreement / persist-only-if-asked / failed-persist predicates, which do not depend
-	// on the guard, stay on); the two F08-sensitive predicates stop at the first such call.
+	// replica-agreement / persist-only-if-asked / failed-persist / dispatcher-free predicates, which
+	// do not depend on the guard, stay on); the F08-sensitive predicates stop at the first such call.
 	tainted := false
+	dispSeen := make([]int, nrep)
+	prev := make([]c19Snap, nrep)
+	// a *Self call is what a dispatcher invokes on the receiving replica: it never goes back to the
+	// replica's own dispatcher (whatever the guards, failures included)
+	checkDisp := func(i, k int, o c19Op) {
+		r := reps[i]
+		if r.Disp != nil && len(r.Disp.Calls) != dispSeen[i] {
+			c.Direct(id, fmt.Sprintf("replica %d: the *Self call at step %d (%s) was handed to the replica's own dispatcher: %v", i, k, o.Kind, r.Disp.Calls[dispSeen[i]:]), replay())
+			dispSeen[i] = len(r.Disp.Calls)
+		}
+	}
 	for k, st := range steps {
 		o := st.Op
 		c.Count(o.Kind)
@@ -418,52 +680,62 @@ func c19Run(c *Ctx, id string, u c19Uni, steps []c19Step, from int, agree bool, 
 		if k < from { // a prefix that shorter logs of the enumeration have observed already
 			for i, r := range reps {
 				r.apply(o, st.Bits[i])
+				checkDisp(i, k, o)
 			}
 			continue
 		}
-		type snap struct {
-			listed string
-			links  []string
-			dec    string
-		}
-		before := make([]snap, nrep)
+		// the state before the call: the snapshot taken after the previous observed call, or a fresh
+		// one; links and decisions (the expensive part) are only taken when a predicate needs them:
+		// the call repeats the previous one, or adapter failures are injected (!agree)
+		needFull := !agree || (k > 0 && steps[k-1].Op.Sx() == o.Sx())
+		before := make([]c19Snap, nrep)
 		var before0 [][]string
 		if o.Pt != "" {
 			before0 = reps[0].listedOf(o.Pt)
 		}
 		for i, r := range reps {
-			before[i] = snap{r.M.listedKey(), u.links(r), u.decisions(r)}
+			if prev[i].full {
+				before[i] = prev[i]
+			} else {
+				// replica 0 always: its Enforce calls fill the matcher cache (memoised g() results) before
+				// the call, so a call that forgets to invalidate it serves stale answers afterwards
+				before[i] = u.take(r, needFull || i == 0)
+			}
 		}
 		var first struct {
 			res string
-			s   snap
+			s   c19Snap
 		}
 		for i, r := range reps {
 			l0 := len(r.A.Log)
 			content0 := r.A.contentKey()
 			res := r.apply(o, st.Bits[i])
 			adlog := strings.Join(r.A.Log[l0:], " ; ")
-			after := snap{r.M.listedKey(), u.links(r), u.decisions(r)}
+			after := u.take(r, true)
+			prev[i] = after
 			if after.listed != before[i].listed || (strings.HasPrefix(res, "aff=[")) || strings.HasPrefix(res, "flag=1") {
 				nontrivial = true
 			}
-			if k >= from {
-				pre := fmt.Sprintf("%d.%d.", k, i)
-				if digest {
-					all := []string{pre, res, adlog, r.A.contentKey(), after.listed}
-					all = append(append(all, after.links...), after.dec)
-					sum.Write([]byte(strings.Join(all, "\n") + "\n"))
-				} else {
-					c.Obs(id, pre+"res", res)
-					c.Obs(id, pre+"adlog", adlog)
-					c.Obs(id, pre+"adcontent", r.A.contentKey())
-					c.Obs(id, pre+"listed", after.listed)
-					for j, l := range u.linkObs {
-						c.Obs(id, pre+"links."+l[0], after.links[j])
-					}
-					c.Obs(id, pre+"dec", after.dec)
+			pre := fmt.Sprintf("%d.%d.", k, i)
+			if digest {
+				all := []string{pre, res, adlog, r.A.contentKey(), after.listed, after.has}
+				all = append(append(all, after.links...), after.dec, r.dispKey())
+				sum.Write([]byte(strings.Join(all, "\n") + "\n"))
+			} else {
+				c.Obs(id, pre+"res", res)
+				c.Obs(id, pre+"adlog", adlog)
+				c.Obs(id, pre+"adcontent", r.A.contentKey())
+				c.Obs(id, pre+"listed", after.listed)
+				c.Obs(id, pre+"has", after.has)
+				for j, l := range u.linkObs {
+					c.Obs(id, pre+"links."+l[0], after.links[j])
+				}
+				c.Obs(id, pre+"dec", after.dec)
+				if r.Disp != nil {
+					c.Obs(id, pre+"disp", r.dispKey())
 				}
 			}
+			checkDisp(i, k, o)
 			if o.Kind == "failnext" {
 				continue
 			}
@@ -476,47 +748,122 @@ func c19Run(c *Ctx, id string, u c19Uni, steps []c19Step, from int, agree bool, 
 			}
 			// a failed persist leaves memory unchanged
 			if strings.HasSuffix(res, "err") &&
-				(after.listed != before[i].listed || strings.Join(after.links, "#") != strings.Join(before[i].links, "#")) {
+				(after.listed != before[i].listed || after.has != before[i].has ||
+					(before[i].full && strings.Join(after.links, "#") != strings.Join(before[i].links, "#"))) {
 				c.Direct(id, fmt.Sprintf("replica %d: the call at step %d returned an error (failed adapter call), yet memory changed", i, k), replay())
 			}
 			if agree {
 				if i == 0 {
 					first.res, first.s = res, after
-				} else if res != first.res || after.listed != first.s.listed || after.dec != first.s.dec ||
+				} else if res != first.res || after.listed != first.s.listed || after.has != first.s.has || after.dec != first.s.dec ||
 					strings.Join(after.links, "#") != strings.Join(first.s.links, "#") {
-					c.Direct(id, fmt.Sprintf("replicas 0 and %d disagree after step %d (result, listed rules, links or decisions)", i, k), replay())
+					c.Direct(id, fmt.Sprintf("replicas 0 and %d disagree after step %d (result, listed rules, indexed rules, links or decisions)", i, k), replay())
 				}
 				// a repeated call reports nothing and changes nothing
 				if !tainted && k > 0 && steps[k-1].Op.Sx() == o.Sx() && o.Pt != "p9" {
 					nothing := res == "aff= ok" || res == "flag=0 ok" || (o.Kind == "clear" && res == "ok")
-					if !nothing || after.listed != before[i].listed || after.dec != before[i].dec ||
+					if !nothing || after.listed != before[i].listed || after.has != before[i].has || after.dec != before[i].dec ||
 						strings.Join(after.links, "#") != strings.Join(before[i].links, "#") {
 						c.Direct(id, fmt.Sprintf("replica %d: the call at step %d repeats the previous one but reported %q or changed memory", i, k, res), replay())
 					}
 				}
 			}
 		}
-		// the affected list is exactly what was added / removed (replica 0)
-		if agree && !tainted && (o.Kind == "add" || o.Kind == "remove") && reps[0].M.Conf.Def(o.Pt) != nil {
-			after0 := reps[0].listedOf(o.Pt)
-			var want, wantAfter [][]string
-			if o.Kind == "add" {
-				want = c19First(o.R1, func(r []string) bool { return !containsRule(before0, r) })
-				wantAfter = append(append([][]string(nil), before0...), want...)
-			} else {
-				want = c19First(o.R1, func(r []string) bool { return containsRule(before0, r) })
-				for _, r := range before0 {
-					if !containsRule(want, r) {
-						wantAfter = append(wantAfter, r)
-					}
+		if !(agree && !tainted) || o.Pt == "" || reps[0].M.Conf.Def(o.Pt) == nil {
+			continue
+		}
+		// inside the guards, on replica 0 (the others agree with it): the reported rules / flag are
+		// exactly what was added / removed / replaced, the index knows exactly the listed rules, and
+		// a type with a priority column stays sorted by priority
+		after0 := reps[0].listedOf(o.Pt)
+		col := u.prioCol(o.Pt)
+		switch o.Kind {
+		case "add":
+			// reported: the rules of the batch that were not listed, batch order, each once; listed
+			// afterwards: the old rules in their old order plus exactly the reported ones — appended in
+			// batch order when the type has no priority column
+			want := c19First(o.R1, func(r []string) bool { return !containsRule(before0, r) })
+			wantAfter := append(append([][]string(nil), before0...), want...)
+			okAfter := rulesKey(after0) == rulesKey(wantAfter)
+			if col >= 0 {
+				old := c19First(after0, func(r []string) bool { return containsRule(before0, r) })
+				okAfter = sortedRulesKey(after0) == sortedRulesKey(wantAfter) && len(after0) == len(wantAfter) &&
+					rulesKey(old) == rulesKey(before0)
+			}
+			if first.res != c19Rules(want, nil) || !okAfter {
+				c.Direct(id, fmt.Sprintf("step %d: reported %q, expected %q; listed %s, expected %s", k, first.res, c19Rules(want, nil), rulesKey(after0), rulesKey(wantAfter)), replay())
+			}
+			if col >= 0 && c19SortedNum(before0, col) && c19AllNum(o.R1, col) && !c19SortedNum(after0, col) {
+				c.Direct(id, fmt.Sprintf("step %d: the rules of %s were sorted by priority, AddPoliciesSelf of rules with numeric priorities left them unsorted: %s", k, o.Pt, rulesKey(after0)), replay())
+			}
+		case "remove", "removefiltered":
+			// every rule reported as removed is no longer listed, every rule no longer listed was
+			// reported, the others keep their order; RemovePoliciesSelf reports in batch order
+			aff := reps[0].Aff
+			var wantAfter [][]string
+			for _, r := range before0 {
+				if !containsRule(aff, r) {
+					wantAfter = append(wantAfter, r)
 				}
 			}
-			if first.res != c19Rules(want, nil) || rulesKey(after0) != rulesKey(wantAfter) {
-				c.Direct(id, fmt.Sprintf("step %d: reported %q, expected %q; listed %s, expected %s", k, first.res, c19Rules(want, nil), rulesKey(after0), rulesKey(wantAfter)), replay())
+			bad := rulesKey(after0) != rulesKey(wantAfter) || len(before0)-len(after0) != len(aff)
+			if o.Kind == "remove" {
+				want := c19First(o.R1, func(r []string) bool { return containsRule(before0, r) })
+				bad = bad || first.res != c19Rules(want, nil)
+			} else { // the listed rules matching the filter, in listing order
+				want := c19First(before0, func(r []string) bool { return c19Matches(r, o.Fi, o.Fvs) })
+				bad = bad || first.res != c19Rules(want, nil)
+			}
+			if bad {
+				c.Direct(id, fmt.Sprintf("step %d: reported %q; listed before %s, after %s: the reported rules are not exactly the rules that went", k, first.res, rulesKey(before0), rulesKey(after0)), replay())
+			}
+			if col >= 0 && c19SortedNum(before0, col) && !c19SortedNum(after0, col) {
+				c.Direct(id, fmt.Sprintf("step %d: a removal left the rules of %s unsorted: %s", k, o.Pt, rulesKey(after0)), replay())
+			}
+		case "update":
+			// true iff the old rule was listed; then it was replaced in its slot
+			want, wantAfter := "flag=0 ok", before0
+			if containsRule(before0, o.R1[0]) {
+				want, wantAfter = "flag=1 ok", c19ReplaceFirst(before0, o.R1[0], o.R2[0])
+			}
+			if first.res != want || rulesKey(after0) != rulesKey(wantAfter) {
+				c.Direct(id, fmt.Sprintf("step %d: reported %q, expected %q; listed %s, expected %s", k, first.res, want, rulesKey(after0), rulesKey(wantAfter)), replay())
+			}
+		case "updatemany":
+			// true iff every old rule was listed when its turn came; then each was replaced in its
+			// slot; otherwise the batch was rolled back completely
+			want, wantAfter := "flag=1 ok", before0
+			for j := range o.R1 {
+				if !containsRule(wantAfter, o.R1[j]) {
+					want, wantAfter = "flag=0 ok", before0
+					break
+				}
+				wantAfter = c19ReplaceFirst(wantAfter, o.R1[j], o.R2[j])
+			}
+			if first.res != want || rulesKey(after0) != rulesKey(wantAfter) {
+				c.Direct(id, fmt.Sprintf("step %d: reported %q, expected %q; listed %s, expected %s", k, first.res, want, rulesKey(after0), rulesKey(wantAfter)), replay())
+			}
+		}
+		// the index knows exactly the listed rules (the rules of the universe are the only ones used)
+		for j, r := range u.rules[o.Pt] {
+			if u.hasOf(first.s.has, o.Pt, j) != containsRule(after0, r) {
+				c.Direct(id, fmt.Sprintf("step %d: rule %v of %s is listed: %v, known to the index: %v", k, r, o.Pt, containsRule(after0, r), !containsRule(after0, r)), replay())
+				break
 			}
 		}
 	}
 	return nontrivial
+}
+
+// hasOf: the bit of rule j of type pt in a hasKey
+func (u c19Uni) hasOf(key string, pt string, j int) bool {
+	parts := strings.Split(key, "|")
+	for i, p := range u.pts {
+		if p == pt && i < len(parts) && j < len(parts[i]) {
+			return parts[i][j] == '1'
+		}
+	}
+	return false
 }
 
 // ---------- generators ----------
@@ -607,7 +954,7 @@ func c19RandomOp(c *Ctx, u c19Uni, withFiltered bool) c19Op {
 // the code there).  Batch updates outside the guard are limited to two pairs: a refused longer
 // batch is rolled back by iterating a Go map, whose order matters once the pairs overlap.
 func c19RandomLog(c *Ctx, u c19Uni, maxLen int, nrep int, withFiltered bool, withFailures bool, allowOog bool) []c19Step {
-	scratch := c19NewReplica(u.conf)
+	scratch := c19NewReplica(u.conf, false)
 	n := 1 + c.Rng.Intn(maxLen)
 	var steps []c19Step
 	for len(steps) < n {
@@ -621,7 +968,7 @@ func c19RandomLog(c *Ctx, u c19Uni, maxLen int, nrep int, withFiltered bool, wit
 		}
 		oog := false
 		if o.Pt != "" && !c19Guard(scratch.listedOf(o.Pt), o) {
-			if !allowOog || c.Rng.Intn(2) == 0 ||
+			if !allowOog || c.Rng.Intn(2) == 0 || u.prioCol(o.Pt) >= 0 || // (priority column: see c19OogOps)
 				(o.Kind == "updatemany" && (len(o.R1) != len(o.R2) || len(o.R1) == 0 || len(o.R1) > 2)) {
 				c.Count("redrawn-outside-guard(F08)")
 				continue
@@ -651,17 +998,17 @@ func c19RandomLog(c *Ctx, u c19Uni, maxLen int, nrep int, withFiltered bool, wit
 
 func init() {
 	register("C19", func(c *Ctx) {
-		c.Rule = "three real DistributedEnforcer replicas (persist always / never / seeded coin) over recording set-semantics adapters apply the same log of *Self calls. (0) fixed witnesses (F02 links and memoised g() results after ClearPolicySelf, a fully replayed log, a refused batch update); (1) exhaustive: every log of length <= 3 (thorough: also length 4 on the RBAC model for logs starting with an AddPoliciesSelf) over an alphabet of 25 (RBAC: p, p2, g, g2) / 23 (domain model) calls with repeated and overlapping batches on a 4-rule universe per type, observed after its last call; (2) seeded random logs of <= 12 calls (random batches with repetition, replayed entries, empty batches, unknown type), observed after every call; (3) single persisting replica with injected adapter failures; (4) single persisting replica with UpdateFilteredPoliciesSelf. The direct predicates 'affected exact' and 'a repeated call reports nothing' stay inside the guards (F08: update targets not listed, no identity update); OUTSIDE the guard the model follows the code, so such calls are part of the correspondence stream (and of the guard-independent predicates: replicas agree, persist only when asked, failed persist leaves memory alone): (1b) from every in-guard state of the exhaustive part up to length 1 (half of the length-2 logs behind an AddPoliciesSelf; thorough: all of length 2) every identity update, update onto a listed rule, overlapping / swapping / identity batch update of g, p (and g2), followed by AddPoliciesSelf and RemovePoliciesSelf of the type's whole rule universe (they show what the index still knows), and a third of the random logs of (2) keep half of their out-of-guard draws (batches of <= 2 pairs) and go on behind them. Distinct = (model, log); non-trivial = the log contains a call that changes memory or reports a non-empty result."
-		unis := []c19Uni{c19RBAC(), c19Domain()}
+		c.Rule = "four real DistributedEnforcer replicas (persist always / never / seeded coin without dispatcher, and a fourth one with a seeded coin that is wired to its own recording persist.Dispatcher through SetDispatcher, auto-notify on) over recording set-semantics adapters apply the same log of *Self calls, on three models: RBAC (p, p2, g, g2), RBAC with domains, and a model with an explicit priority column (p = priority, sub, obj, act, eft under priority(p.eft) || deny; seven p rules whose priorities force insertion in front of listed rules, ties, and rules that sort last). Observed per call and replica: result, adapter calls and content, listed rules, what the index (PolicyMap) knows about every rule of the universe, HasLink/GetRoles/GetUsers, Enforce decisions, and for the wired replica the calls its dispatcher received (the model says: none, ever). (0) fixed witnesses (F02 links and memoised g() results after ClearPolicySelf, a fully replayed log, a refused batch update; priority model: insertion in front then removal / update / batch update of the rule that sorts last, each replayed, ties, the priority effect with a link); (1) exhaustive: every log of length <= 3 on the RBAC model (thorough: also length 4 for logs starting with an AddPoliciesSelf), <= 2 on the domain model and on the priority model (thorough: <= 3 there) over an alphabet of 25 (RBAC) / 23 (domain) / 30 (priority) calls with repeated and overlapping batches, observed after its last call; (2) seeded random logs of <= 12 calls (random batches with repetition, replayed entries, empty batches, unknown type), observed after every call; (3) a single persisting replica with injected adapter failures and (4) a single persisting replica with UpdateFilteredPoliciesSelf — in both the replica is wired to a dispatcher in every second log. Direct predicates on the implementation alone: the wired replica's dispatcher never receives a call (every stream, no guard); replicas agree (results, listed rules, indexed rules, links, decisions); persist only when asked; a failed persist leaves memory alone; and inside the guards (F08: update targets not listed, no identity update): the reported rules / flag of Add / Remove / RemoveFiltered / Update / UpdatePolicies are exactly what was added / removed / replaced (every rule reported as removed is no longer listed, every rule no longer listed was reported, the others keep their order), the index knows exactly the listed rules, a repeated call reports nothing and changes nothing, and a type with a priority column that was sorted stays sorted (numeric priorities; removals always). OUTSIDE the F08 guard the model follows the code, so such calls are part of the correspondence stream (and of the guard-independent predicates): (1b) from every in-guard state of the exhaustive part up to length 1 (half of the length-2 logs behind an AddPoliciesSelf; thorough: all of length 2) every identity update, update onto a listed rule, overlapping / swapping / identity batch update of g, p (and g2), followed by AddPoliciesSelf and RemovePoliciesSelf of the type's whole rule universe, and a third of the random logs of (2) keep half of their out-of-guard draws (batches of <= 2 pairs) and go on behind them — except on a type with a priority column (F08 x priority bubble: the duplicated rule's single index entry is bumped past the end of the list and a later RemovePoliciesSelf panics where Store.remove is total). Distinct = (model, log); non-trivial = the log contains a call that changes memory or reports a non-empty result."
+		unis := []c19Uni{c19RBAC(), c19Domain(), c19Priority()}
 		// (0) fixed witnesses, observed after every call on the three replicas
 		for ui, u := range unis {
 			for wi, w := range c19Witnesses(u) {
 				steps := make([]c19Step, len(w))
 				for k, o := range w {
-					steps[k] = c19Step{Op: o, Bits: []bool{true, false, (k+wi)%2 == 0}}
+					steps[k] = c19Step{Op: o, Bits: []bool{true, false, (k+wi)%2 == 0, (k+wi)%3 == 0}}
 				}
 				id := fmt.Sprintf("c19.w%d.%d", ui, wi)
-				if c19Run(c, id, u, steps, 0, true, false) {
+				if c19Run(c, id, u, steps, 0, true, false, c19Wire(4, false)) {
 					c.NonTrivial(id)
 				}
 			}
@@ -673,14 +1020,14 @@ func init() {
 			if c.Thorough() && ui == 0 {
 				depth = 4
 			}
-			if !c.Thorough() && ui == 1 {
-				depth = 2
+			if ui >= 1 && !(c.Thorough() && ui == 2) {
+				depth = 2 // domain model; priority model in the quick tier
 			}
 			var rec func(path []int, maxLen int)
 			rec = func(path []int, maxLen int) {
 				if len(path) > 0 {
 					// replay on a scratch replica to evaluate the guards
-					scratch := c19NewReplica(u.conf)
+					scratch := c19NewReplica(u.conf, false)
 					steps := make([]c19Step, len(path))
 					for k, ai := range path {
 						o := al[ai]
@@ -689,13 +1036,13 @@ func init() {
 							return
 						}
 						scratch.apply(o, false)
-						steps[k] = c19Step{Op: o, Bits: []bool{true, false, c.Rng.Intn(2) == 0}}
+						steps[k] = c19Step{Op: o, Bits: c19Bits(c)}
 					}
 					id := fmt.Sprintf("c19.x%d", ui)
 					for _, ai := range path {
 						id += fmt.Sprintf(".%d", ai)
 					}
-					if c19Run(c, id, u, steps, len(path)-1, true, len(path) >= 4) {
+					if c19Run(c, id, u, steps, len(path)-1, true, len(path) >= 4, c19Wire(4, false)) {
 						c.NonTrivial(id)
 					}
 				}
@@ -733,7 +1080,7 @@ func init() {
 				}
 			}
 			for pi, path := range paths {
-				scratch := c19NewReplica(u.conf)
+				scratch := c19NewReplica(u.conf, false)
 				var prefix []c19Step
 				ok := true
 				for _, ai := range path {
@@ -743,7 +1090,7 @@ func init() {
 						break
 					}
 					scratch.apply(o, false)
-					prefix = append(prefix, c19Step{Op: o, Bits: []bool{true, false, c.Rng.Intn(2) == 0}})
+					prefix = append(prefix, c19Step{Op: o, Bits: c19Bits(c)})
 				}
 				if !ok {
 					continue
@@ -754,26 +1101,27 @@ func init() {
 					}
 					all := u.rules[o.Pt]
 					steps := append(append([]c19Step(nil), prefix...),
-						c19Step{Op: o, Bits: []bool{true, false, c.Rng.Intn(2) == 0}, Oog: true},
-						c19Step{Op: c19Op{Kind: "add", Pt: o.Pt, R1: all}, Bits: []bool{true, false, true}},
-						c19Step{Op: c19Op{Kind: "remove", Pt: o.Pt, R1: all}, Bits: []bool{true, false, false}})
+						c19Step{Op: o, Bits: c19Bits(c), Oog: true},
+						c19Step{Op: c19Op{Kind: "add", Pt: o.Pt, R1: all}, Bits: []bool{true, false, true, false}},
+						c19Step{Op: c19Op{Kind: "remove", Pt: o.Pt, R1: all}, Bits: []bool{true, false, false, true}})
 					id := fmt.Sprintf("c19.o%d.%d.%d", ui, pi, oi)
-					if c19Run(c, id, u, steps, len(prefix), true, false) {
+					if c19Run(c, id, u, steps, len(prefix), true, false, c19Wire(4, false)) {
 						c.NonTrivial(id)
 					}
 				}
 			}
 		}
 		// (2) random logs, three replicas
-		nrand := 400
+		nquick := 450
+		nrand := nquick
 		if c.Thorough() {
 			nrand = 20000
 		}
 		for i := 0; i < nrand; i++ {
-			u := unis[i%2]
-			steps := c19RandomLog(c, u, 12, 3, false, false, i%3 == 2)
+			u := unis[i%3]
+			steps := c19RandomLog(c, u, 12, 4, false, false, (i/3)%3 == 2)
 			id := fmt.Sprintf("c19.r%d", i)
-			if c19Run(c, id, u, steps, 0, true, i >= 400) {
+			if c19Run(c, id, u, steps, 0, true, i >= nquick, c19Wire(4, false)) {
 				c.NonTrivial(id)
 			}
 		}
@@ -783,10 +1131,10 @@ func init() {
 			nfail = 3000
 		}
 		for i := 0; i < nfail; i++ {
-			u := unis[i%2]
+			u := unis[i%3]
 			steps := c19RandomLog(c, u, 10, 1, false, true, false)
 			id := fmt.Sprintf("c19.f%d", i)
-			if c19Run(c, id, u, steps, 0, false, i >= 400) {
+			if c19Run(c, id, u, steps, 0, false, i >= 400, c19Wire(1, (i/3)%2 == 1)) {
 				c.NonTrivial(id)
 			}
 		}
@@ -796,10 +1144,10 @@ func init() {
 			nuf = 3000
 		}
 		for i := 0; i < nuf; i++ {
-			u := unis[i%2]
+			u := unis[i%3]
 			steps := c19RandomLog(c, u, 10, 1, true, false, false)
 			id := fmt.Sprintf("c19.u%d", i)
-			if c19Run(c, id, u, steps, 0, false, i >= 400) {
+			if c19Run(c, id, u, steps, 0, false, i >= 400, c19Wire(1, (i/3)%2 == 1)) {
 				c.NonTrivial(id)
 			}
 		}
@@ -813,7 +1161,7 @@ func init() {
 func c19Probes(c *Ctx) {
 	never := func() bool { return false }
 	{ // F08: UpdatePolicySelf to a rule that is already listed lists it twice
-		r := c19NewReplica(machRBAC)
+		r := c19NewReplica(machRBAC, false)
 		A, Bq := []string{"alice", "data1", "read"}, []string{"bob", "data2", "write"}
 		_, _ = r.D.AddPoliciesSelf(never, "p", "p", [][]string{A, Bq})
 		ok, _ := r.D.UpdatePolicySelf(never, "p", "p", A, Bq)
@@ -828,7 +1176,7 @@ func c19Probes(c *Ctx) {
 		}
 	}
 	{ // F09 family: without persistence UpdateFilteredPoliciesSelf has no old rules
-		r := c19NewReplica(machRBAC)
+		r := c19NewReplica(machRBAC, false)
 		A, N := []string{"alice", "data1", "read"}, []string{"alice", "data2", "write"}
 		_, _ = r.D.AddPoliciesSelf(never, "p", "p", [][]string{A})
 		ok, err := r.D.UpdateFilteredPoliciesSelf(never, "p", "p", [][]string{N}, 0, "alice")
